@@ -437,6 +437,31 @@ theorem topup_and_charge_commute (cfg : Cfg) (s : Tower) (u : User) (ui : UserIn
   · simp; omega
   · simp; omega
 
+/-- **two_renewals_both_count** (no lost slot update between registrations): two renewals of one
+user served one after the other — the only way the users lock lets two concurrent ones run — add
+the configured slots twice and the duration twice (capped), provided the cap on slots is not hit. -/
+theorem two_renewals_both_count (cfg : Cfg) (s : Tower) (u : User) (ui : UserInfo)
+    (hu : s.mem.users u = some ui) (hcap : ui.slots + cfg.slots + cfg.slots ≤ u32Max) :
+    (addUpdateUser cfg (addUpdateUser cfg s u).1 u).1.mem.users u =
+      some { slots := ui.slots + cfg.slots + cfg.slots, start := ui.start,
+             expiry := min (min (ui.expiry + cfg.duration) u32Max + cfg.duration) u32Max } := by
+  have h1 : ¬ (ui.slots + cfg.slots > u32Max) := by omega
+  have h2 : ¬ (ui.slots + cfg.slots + cfg.slots > u32Max) := by omega
+  unfold addUpdateUser
+  simp [hu, h1, h2]
+
+/-- renewals of two different users commute on the in-memory table -/
+theorem renewals_of_two_users_commute (cfg : Cfg) (s : Tower) (u v : User) (ui vi : UserInfo) (hne : u ≠ v)
+    (hu : s.mem.users u = some ui) (hv : s.mem.users v = some vi) :
+    (addUpdateUser cfg (addUpdateUser cfg s u).1 v).1.mem.users =
+      (addUpdateUser cfg (addUpdateUser cfg s v).1 u).1.mem.users := by
+  have hne' : v ≠ u := fun h => hne h.symm
+  funext x
+  unfold addUpdateUser
+  simp only [hu, hv]
+  by_cases cu : ui.slots + cfg.slots > u32Max <;> by_cases cv : vi.slots + cfg.slots > u32Max <;>
+    simp [cu, cv, hu, hv, hne, hne'] <;> (by_cases hx : x = u <;> by_cases hy : x = v <;> simp_all)
+
 /-- **no_orphan_record**: an appointment cannot be inserted for a user that is gone, a tracker
 cannot be inserted without its appointment, and removing a user removes everything it owns -/
 theorem no_orphan_record (d : Db) (k : Uuid) (a : Appt) (t : Tracker) :
